@@ -261,6 +261,53 @@ def run_case(args):
                     mt.insert(rows)
             if res["violations"]:
                 break
+        rng2 = random.Random(f"c03b-{seed}-{idx}")   # episodes added later draw from a stream of their own
+        if not res["violations"] and not res["inconclusive"] and rng2.random() < 0.3 and "zf" not in model:
+            # "failed bulk insert" episode: an INSERT that reaches storage in two chunks and fails in the second one (NULL into
+            # a NOT NULL column at row 1030..) is not acknowledged; whatever it left behind (an unlogged row-set directory) must
+            # not stop the table from taking rows after a clean shutdown and reopen
+            t = Table("zf", [Col("id", "INT", nullable=False), Col("v", "INT")])
+            r = rl.sql(t.ddl())
+            hist.append((t.ddl(), r["ok"]))
+            if r["ok"]:
+                model["zf"] = ModelTable(t)
+                if rng2.random() < 0.5:
+                    first = [(i, i) for i in range(rng2.choice([1, 3]))]
+                    sql = "insert into zf values " + ", ".join(f"({a}, {b})" for a, b in first)
+                    r = rl.sql(sql)
+                    hist.append((sql, r["ok"]))
+                    if r["ok"]:
+                        model["zf"].insert(first)
+                nbad = rng2.choice([1030, 1100, 2060])
+                vals = ", ".join(f"({100 + i}, {i})" for i in range(nbad)) + ", (NULL, 0)" + "".join(f", ({5000 + i}, 1)" for i in range(rng2.choice([0, 5])))
+                sql = f"insert into zf values {vals}"
+                r = rl.sql(sql, timeout=120)
+                hist.append((sql[:80] + f" … ({nbad} rows, then a NULL id)", r["ok"]))
+                res["stmts"] += 1
+                if r.get("dead"):
+                    res["inconclusive"] = "runner died: " + r["err"]
+                elif r["ok"]:
+                    res["inconclusive"] = "NULL into a NOT NULL column was accepted (C16's subject)"
+                else:
+                    res["features"].add("failed-multi-chunk-insert")
+                    for rep_ in range(rng2.choice([1, 2])):
+                        r = rl.cmd({"op": "reopen"})
+                        hist.append(("<shutdown+reopen>", r.get("ok")))
+                        res["reopens"] += 1
+                        if not r.get("ok"):
+                            fail("reopen-failed", f"reopen failed: {r.get('kind')} {r.get('err')} {r.get('panics')}")
+                            break
+                        if not check_state(f"reopen#{res['reopens']}(after failed bulk insert)"):
+                            break
+                        sql = f"insert into zf values ({9000 + rep_}, 7)"
+                        r = rl.sql(sql)
+                        hist.append((sql, r["ok"]))
+                        if not r["ok"]:
+                            fail("followup-failed", f"after a failed bulk insert and a reopen: {sql}: {r.get('kind')} {r.get('err')}")
+                            break
+                        model["zf"].insert([(9000 + rep_, 7)])
+                        if not check_state("after the follow-up insert"):
+                            break
         if not res["violations"] and not res["inconclusive"]:
             # final reopen
             r = rl.cmd({"op": "reopen"})
